@@ -74,19 +74,27 @@ type c18Scenario struct {
 	Idx       int       `json:"idx,omitempty"`
 }
 
-func c18Dur(class string) time.Duration {
+func c18Dur(class string, tick time.Duration) time.Duration {
 	switch class {
 	case "short":
-		return 1 * c18Tick
+		return 1 * tick
 	case "long":
-		return 40 * c18Tick
+		return 40 * tick
 	case "zero":
 		return 0
 	case "mute":
 		return -2 // never; the client half-closes and the upstream stays silent
+	case "edge":
+		return -3 // until shortly before the end of the wait (an absolute moment, told when Shutdown is called)
 	}
 	return -1 // never
 }
+
+const (
+	c18EdgeBefore = 75 * time.Millisecond // "edge" work ends this long before the wait is over
+	c18EdgeJudge  = 25 * time.Millisecond // a cut the client saw later than (wait - this) gives no verdict
+	c18TickEdge   = 500 * time.Millisecond // scenarios with edge work run on a slower clock: W = 2 s
+)
 
 // ---------------------------------------------------------------- shared upstreams
 
@@ -97,6 +105,15 @@ type c18Up struct {
 	ended map[string]time.Time // id -> when the server side of the item ended (finished or failed)
 	stop  chan struct{}        // closed at the end of a scenario: open work is abandoned
 	muted map[string]chan struct{} // id -> closed when the upstream has seen the request and the client's EOF
+	edgeAt  time.Time     // when "edge" work ends
+	edgeSet chan struct{} // closed once edgeAt is known
+}
+
+func (u *c18Up) setEdge(t time.Time) {
+	u.mu.Lock()
+	u.edgeAt = t
+	close(u.edgeSet)
+	u.mu.Unlock()
 }
 
 func (u *c18Up) mutedCh(id string) chan struct{} {
@@ -118,6 +135,7 @@ func (u *c18Up) newScenario() {
 	u.ended = map[string]time.Time{}
 	u.stop = make(chan struct{})
 	u.muted = map[string]chan struct{}{}
+	u.edgeSet = make(chan struct{})
 	u.mu.Unlock()
 }
 
@@ -147,6 +165,21 @@ func (u *c18Up) work(d time.Duration, gone <-chan struct{}) bool {
 	var t <-chan time.Time
 	if d >= 0 {
 		t = time.After(d)
+	}
+	if d == -3 {
+		u.mu.Lock()
+		set := u.edgeSet
+		u.mu.Unlock()
+		select {
+		case <-set:
+		case <-u.stopCh():
+			return false
+		case <-gone:
+			return false
+		}
+		u.mu.Lock()
+		t = time.After(time.Until(u.edgeAt))
+		u.mu.Unlock()
 	}
 	select {
 	case <-t:
@@ -281,7 +314,20 @@ func c18Cert() (*tls.Config, error) {
 
 // ---------------------------------------------------------------- the world of one test run
 
+// c18ClientHello returns the bytes of a real TLS ClientHello record.
+func c18ClientHello() []byte {
+	c1, c2 := net.Pipe()
+	defer c1.Close()
+	defer c2.Close()
+	go tls.Client(c1, &tls.Config{InsecureSkipVerify: true, ServerName: "localhost"}).Handshake()
+	buf := make([]byte, 16384)
+	c2.SetReadDeadline(time.Now().Add(2 * time.Second))
+	n, _ := c2.Read(buf)
+	return buf[:n]
+}
+
 type c18World struct {
+	tick    time.Duration
 	up      *c18Up
 	tlsCfg  *tls.Config
 	plainUp net.Listener
@@ -397,6 +443,8 @@ func (w *c18World) start(name, fixedAddr string) (*c18Server, error) {
 				s.served <- ListenAndServeHTTP(l, w.up, w.tlsCfg)
 			case "tcp":
 				s.served <- ListenAndServeTCP(l, &tcp.Proxy{DialTimeout: 5 * time.Second, Lookup: c18Target(w.plainUp.Addr().String())}, nil)
+			case "tcp+tls":
+				s.served <- ListenAndServeTCP(l, &tcp.Proxy{DialTimeout: 5 * time.Second, Lookup: c18Target(w.plainUp.Addr().String())}, w.tlsCfg)
 			case "tcp+sni":
 				s.served <- ListenAndServeTCP(l, &tcp.SNIProxy{DialTimeout: 5 * time.Second, Lookup: c18Target(w.tlsUp.Addr().String())}, nil)
 			case "https+tcp+sni":
@@ -465,6 +513,7 @@ type c18Run struct {
 	established chan struct{} // closed when the first bytes of the answer arrived
 	finished    chan struct{} // closed when the client is through
 	complete    bool          // the full answer arrived and the exchange ended cleanly
+	endAt       time.Time     // when the client was through
 	err         error
 	cancel      func()
 }
@@ -494,7 +543,7 @@ func c18ReadWork(r *c18Run, rd io.Reader) {
 
 func (w *c18World) launch(s *c18Server, it c18Item, id, flavour string, timeout time.Duration) *c18Run {
 	r := &c18Run{item: it, id: id, flavour: flavour, established: make(chan struct{}), finished: make(chan struct{})}
-	ns := int64(c18Dur(it.Dur))
+	ns := int64(c18Dur(it.Dur, w.tick))
 	ctx, cancel := context.WithCancel(context.Background())
 	if timeout > 0 {
 		ctx, cancel = context.WithTimeout(context.Background(), timeout)
@@ -503,7 +552,30 @@ func (w *c18World) launch(s *c18Server, it c18Item, id, flavour string, timeout 
 	clientTLS := &tls.Config{InsecureSkipVerify: true, ServerName: "localhost"}
 	go func() {
 		defer close(r.finished)
+		defer func() { r.endAt = time.Now() }()
 		defer cancel()
+		if it.Dur == "stall" {
+			// a connection that never gets as far as a request: the client connects and sends nothing,
+			// or stops in the middle of its TLS ClientHello
+			var d net.Dialer
+			c, err := d.DialContext(ctx, "tcp", s.addr)
+			if err != nil {
+				r.fail(err)
+				return
+			}
+			defer c.Close()
+			go func() { <-ctx.Done(); c.Close() }()
+			if strings.HasSuffix(flavour, "+hello") {
+				if hello := c18ClientHello(); len(hello) > 20 {
+					c.Write(hello[:len(hello)/2])
+				}
+			}
+			time.Sleep(30 * time.Millisecond) // pacing: let the listener pick the connection up
+			close(r.established)
+			io.Copy(io.Discard, c)
+			r.fail(fmt.Errorf("connection closed"))
+			return
+		}
 		switch flavour {
 		case "http", "https":
 			tr := &http.Transport{DisableKeepAlives: true, TLSClientConfig: clientTLS}
@@ -520,7 +592,7 @@ func (w *c18World) launch(s *c18Server, it c18Item, id, flavour string, timeout 
 				return
 			}
 			c18ReadWork(r, resp.Body)
-		case "tcp", "sni":
+		case "tcp", "sni", "tls":
 			var d net.Dialer
 			c, err := d.DialContext(ctx, "tcp", s.addr)
 			if err != nil {
@@ -530,8 +602,12 @@ func (w *c18World) launch(s *c18Server, it c18Item, id, flavour string, timeout 
 			defer c.Close()
 			go func() { <-ctx.Done(); c.Close() }()
 			var rw io.ReadWriter = c
-			if flavour == "sni" {
-				tc := tls.Client(c, &tls.Config{InsecureSkipVerify: true, ServerName: c18SNIHost})
+			if flavour == "sni" || flavour == "tls" {
+				sn := c18SNIHost
+				if flavour == "tls" {
+					sn = "localhost"
+				}
+				tc := tls.Client(c, &tls.Config{InsecureSkipVerify: true, ServerName: sn})
 				if err := tc.HandshakeContext(ctx); err != nil {
 					r.fail(err)
 					return
@@ -606,6 +682,8 @@ func c18Flavour(name string, nth int, seed int64) string {
 		return kind
 	case "tcp+sni":
 		return "sni"
+	case "tcp+tls":
+		return "tls"
 	case "https+tcp+sni":
 		if (int64(nth)+seed)%2 == 0 {
 			return "sni"
@@ -710,11 +788,18 @@ func (w *c18World) play(sc *c18Scenario, seed int64) (res c18Result) {
 	}
 
 	// ---- work before shutdown, in the order of the scenario's clock
-	wait := time.Duration(sc.W) * c18Tick
-	if sc.WaitTicks > 0 {
-		wait = time.Duration(sc.WaitTicks) * c18Tick
+	tick := c18Tick
+	for _, it := range sc.Items {
+		if it.Dur == "edge" {
+			tick = c18TickEdge // work that ends just within the wait needs a wait long enough to aim at
+		}
 	}
-	bound := time.Duration(sc.W)*c18Tick + c18Slack
+	w.tick = tick
+	wait := time.Duration(sc.W) * tick
+	if sc.WaitTicks > 0 {
+		wait = time.Duration(sc.WaitTicks) * tick
+	}
+	bound := time.Duration(sc.W)*tick + c18Slack
 	var runs []*c18Run
 	defer func() {
 		for _, r := range runs {
@@ -732,7 +817,7 @@ func (w *c18World) play(sc *c18Scenario, seed int64) (res c18Result) {
 	t0 := time.Now()
 	var late []c18Item
 	for clk := 0; clk <= sc.Tstart; clk++ {
-		if d := time.Until(t0.Add(time.Duration(clk) * c18Tick)); d > 0 {
+		if d := time.Until(t0.Add(time.Duration(clk) * tick)); d > 0 {
 			time.Sleep(d) // pacing of the scenario, not a verdict
 		}
 		var batch []*c18Run
@@ -742,11 +827,14 @@ func (w *c18World) play(sc *c18Scenario, seed int64) (res c18Result) {
 			}
 			nth[it.Srv]++
 			fl := c18Flavour(it.Srv, nth[it.Srv], seed)
+			if it.Dur == "stall" && (fl == "https" || fl == "tls" || fl == "sni") && (int64(nth[it.Srv]+i)+seed)%2 == 0 {
+				fl += "+hello"
+			}
 			if it.Dur == "mute" {
 				if fl == "https" {
 					fl = "sni"
 				}
-				if fl != "tcp" && fl != "sni" {
+				if fl != "tcp" && fl != "sni" && fl != "tls" {
 					res.setup = fmt.Sprintf("mute work on %s, which carries no tunnels", it.Srv)
 					return
 				}
@@ -776,6 +864,7 @@ func (w *c18World) play(sc *c18Scenario, seed int64) (res c18Result) {
 	// ---- shutdown
 	done := make(chan struct{})
 	tStart := time.Now()
+	w.up.setEdge(tStart.Add(wait - c18EdgeBefore))
 	go func() {
 		Shutdown(wait)
 		close(done)
@@ -800,12 +889,49 @@ func (w *c18World) play(sc *c18Scenario, seed int64) (res c18Result) {
 		probes = append(probes, probe{w.launch(srvs[it.Srv], it2, fmt.Sprintf("l%d-%d", sc.Idx, i), c18Flavour(it.Srv, nth[it.Srv], seed), 1500*time.Millisecond), it.St})
 	}
 
+	// ---- half way through the wait every listening socket must be gone: a TCP connection is refused, not
+	// merely left unserved (every listener of fabio closes its socket first when it is told to shut down; being
+	// accepted and dropped later is tolerated only in the first moments, above)
+	type tcpProbe struct {
+		kind string
+		at   time.Duration
+		ok   bool
+	}
+	tcpProbes := make(chan tcpProbe, 2*len(kinds))
+	nTCP := 0
+	for _, at := range []time.Duration{wait / 2, wait * 9 / 10} {
+		for _, k := range kinds {
+			nTCP++
+			go func(k string, at time.Duration) {
+				select {
+				case <-time.After(time.Until(tStart.Add(at))):
+				case <-done: // Shutdown is back: the process is gone
+					tcpProbes <- tcpProbe{k, at, false}
+					return
+				}
+				c, err := net.DialTimeout("tcp", srvs[k].addr, 500*time.Millisecond)
+				if err == nil {
+					c.Close()
+				}
+				tcpProbes <- tcpProbe{k, at, err == nil}
+			}(k, at)
+		}
+	}
+
 	// ---- the bound
 	select {
 	case <-done:
 		res.returned = true
 		res.shutdown = time.Since(tStart)
 	case <-time.After(time.Until(tStart.Add(bound))):
+	}
+	for i := 0; i < nTCP; i++ {
+		p := <-tcpProbes
+		res.probes++
+		if p.ok {
+			find("accept-after-start", map[string]any{"kind": p.kind, "how": "tcp-accept"},
+				"%s listener still accepted a TCP connection %v after Shutdown(%v) was called: its socket is not closed", p.kind, p.at, wait)
+		}
 	}
 	if !res.returned {
 		// late or blocked?  Give it as long again, then find out which server holds it.
@@ -885,8 +1011,32 @@ func (w *c18World) play(sc *c18Scenario, seed int64) (res c18Result) {
 	}
 
 	// ---- work in flight that ended within the wait must have completed normally
-	half := tStart.Add(time.Duration(sc.W) * c18Tick / 2)
+	half := tStart.Add(time.Duration(sc.W) * tick / 2)
 	for _, r := range runs {
+		if r.item.Dur == "edge" {
+			// work that ends c18EdgeBefore before the wait is over finishes within the wait: it must
+			// complete.  A verdict needs the client to have seen the exchange end early enough that the
+			// cut cannot have been the deadline itself.
+			select {
+			case <-r.finished:
+			case <-time.After(10 * time.Second):
+				find("edge-cut", map[string]any{"kind": r.item.Srv, "flavour": r.flavour, "how": "hung"},
+					"%s item on %s due %v before the end of the wait neither completed nor failed within 10s", r.flavour, r.item.Srv, c18EdgeBefore)
+				continue
+			}
+			switch {
+			case r.complete:
+				res.asserted++
+			case r.endAt.Before(tStart.Add(wait - c18EdgeJudge)):
+				res.asserted++
+				find("edge-cut", map[string]any{"kind": r.item.Srv, "flavour": r.flavour, "how": "cut"},
+					"%s item on %s was in flight when shutdown started and due %v after it (wait %v); it was cut %v after the start: %v",
+					r.flavour, r.item.Srv, wait-c18EdgeBefore, wait, r.endAt.Sub(tStart).Round(time.Millisecond), r.err)
+			default:
+				res.skipped++ // ended at the deadline itself: the answer may just have been too slow
+			}
+			continue
+		}
 		if r.item.Dur != "short" {
 			// The statement is silent about work that outlasts the wait (and the design leaves open
 			// what becomes of work that ends exactly at the deadline).
